@@ -33,6 +33,8 @@ fn main() {
     ctrlc::set_handler(move || {
         if renamify_core::interrupt::confirmation_prompt_active() {
             eprintln!("\nOperation cancelled by user.");
+            // exit() skips destructors: release the lock file here
+            renamify_core::lock::release_held_locks();
             process::exit(130);
         }
 
